@@ -68,6 +68,9 @@ pub fn reset(exec: u32, slow_clone: u8, slow_view: u8) {
 
 fn violation(class: &'static str, serial: u32, msg: String) {
     let (task, step) = rt::with(|r| (r.cur.get(), r.steps.get()));
+    if rt::with(|r| r.trace.get()) {
+        eprintln!("  !! ledger violation {} serial {} : {}", class, serial, msg);
+    }
     LEDGER.with(|l| {
         let mut l = l.borrow_mut();
         if l.violations.len() < 16 {
@@ -97,6 +100,7 @@ pub fn fmt_id(id: u64) -> String {
 
 impl P {
     pub fn new(id: u64) -> P {
+        let _g = rt::galloc::NoAttr::new();
         LEDGER.with(|l| {
             let mut l = l.borrow_mut();
             let serial = l.entries.len() as u32;
@@ -118,6 +122,7 @@ impl P {
 
     /// Check that this is a complete, live value. `when` names the observation point.
     pub fn observe(&self, when: &'static str) -> bool {
+        let _g = rt::galloc::NoAttr::new();
         // read the fields once (a torn slot may disagree with itself)
         let (id, inv, serial, exec) = (self.id, self.inv, self.serial, self.exec);
         LEDGER.with(|l| {
@@ -165,6 +170,7 @@ impl P {
 
 impl Clone for P {
     fn clone(&self) -> P {
+        let _g = rt::galloc::NoAttr::new();
         let ok = self.observe("clone start");
         let (id0, serial0) = (self.id, self.serial);
         let n = LEDGER.with(|l| {
@@ -216,6 +222,10 @@ impl Clone for P {
 
 impl Drop for P {
     fn drop(&mut self) {
+        let _g = rt::galloc::NoAttr::new();
+        if rt::with(|r| r.trace.get()) {
+            eprintln!("  -- t{} drop {} serial {}", rt::with(|r| r.cur.get()), fmt_id(self.id), self.serial);
+        }
         let (id, inv, serial, exec) = (self.id, self.inv, self.serial, self.exec);
         let r = LEDGER.try_with(|l| {
             let mut l = match l.try_borrow_mut() {
@@ -255,6 +265,7 @@ impl Drop for P {
 
 /// The view closure body: observe, optionally linger, observe again; returns the id.
 pub fn view(p: &P) -> u64 {
+    let _g = rt::galloc::NoAttr::new();
     let ok = p.observe("view start");
     let (id0, serial0) = (p.id, p.serial);
     let n = LEDGER.with(|l| {
